@@ -690,9 +690,11 @@ def _interp_internal_from_weight(arr, axis, left, right, lhs_idx, rhs_idx, frac,
     # exact at the nodes, also next to (or on) a non-finite value
     newval = np.where(_frac == 0, vleft, newval)
 
-    # fill values
-    newval[left_idx] = left
-    newval[right_idx] = right
+    # fill values (None, as in numpy.interp: the first / last value, which the clipped indices already gave)
+    if left is not None:
+        newval[left_idx] = left
+    if right is not None:
+        newval[right_idx] = right
 
     # transpose back
     if arr.ndim > 1:
